@@ -48,13 +48,13 @@ Theorem C01_optional : forall n e f,
     end.
 Proof. exact (peval_optional text re_at isalnum isalpha lower upper ic unsafe rules ec act lineat). Qed.
 
-(* lookaheads never consume input nor touch cst, ast or the cut flag *)
+(* lookaheads never consume input nor touch cst, ast or the cut flag, and contribute no value to their sequence *)
 Theorem C01_lookahead_pure : forall n neg e f r f',
-  peval' (S n) (Look neg e) f = Ok r f' -> f' = f.
+  peval' (S n) (Look neg e) f = Ok r f' -> f' = f /\ r = VNone.
 Proof. exact (peval_lookahead_pure text re_at isalnum isalpha lower upper ic unsafe rules ec act lineat). Qed.
 
 Theorem C01_lookahead_iff : forall n e f,
-  (exists r f1, peval' n e (push f) = Ok r f1) <-> (exists r, peval' (S n) (Look false e) f = Ok r f).
+  (exists r f1, peval' n e (push f) = Ok r f1) <-> peval' (S n) (Look false e) f = Ok VNone f.
 Proof. exact (peval_lookahead_iff text re_at isalnum isalpha lower upper ic unsafe rules ec act lineat). Qed.
 
 Theorem C01_neg_lookahead_iff : forall n e f,
@@ -73,7 +73,8 @@ Theorem C01_repetition_progress : forall (ev : @ev_t unit) e sep omitsep f f',
   repeat_iter (fun _ u => u) ev e sep omitsep f tt = (IOk f', tt) -> pos f' <> pos f.
 Proof. exact repeat_iter_progress. Qed.
 
-(* a rule's value is always exactly one element of its caller *)
+(* a rule's value is handed to its caller by ONE cstadd: one element of the caller, unless the value is an open list
+   (see C01_rule_value_one_element_refuted below) *)
 Theorem C01_call_one_element : forall n r f v f',
   peval' (S n) (Call r) f = Ok v f' ->
   exists np, f' = append (goto f np) v /\ cutseen f' = cutseen f /\ fast f' = fast f
@@ -101,6 +102,12 @@ Theorem C01_consumed_bounds_faithful :
 Proof. exact (parse_consumed_bounds text re_at isalnum isalpha lower upper ic unsafe rules ec act lineat). Qed.
 
 End C01.
+
+(* the full statement "a rule's value is always one element of its caller" is FALSE of the faithful model (and of the
+   code: replayed by harness/props/c01.py): start = r 'c' ; r = @:('a' 'b') on "abc" yields ['a','b','c'], not [['a','b'],'c'] *)
+Theorem C01_rule_value_one_element_refuted :
+  exists f, o_run = Ok (VList true [VStr [97%N]; VStr [98%N]; VStr [99%N]]) f.
+Proof. exact override_list_is_flattened. Qed.
 Print Assumptions C01_consumed_bounds.
 Print Assumptions C01_consumed_bounds_faithful.
 Print Assumptions C01_semantics_deterministic.
@@ -114,3 +121,4 @@ Print Assumptions C01_closure_shape.
 Print Assumptions C01_repetition_progress.
 Print Assumptions C01_call_one_element.
 Print Assumptions C01_faithful_is_clean.
+Print Assumptions C01_rule_value_one_element_refuted.
